@@ -53,9 +53,12 @@ type Case struct {
 }
 
 var (
-	patterns   = []string{"/a", "/b/{id}", "/c", "/a/b", "/d/{x}/{y:\\d+}", "/e", "/f", "/g", "/h/{n}"}
+	patterns = []string{"/a", "/b/{id}", "/c", "/a/b", "/d/{x}/{y:\\d+}", "/e", "/f", "/g", "/h/{n}",
+		// the same routes with their parameters spelt the other way (captured / ignored): what another router of the
+		// process may well use; one router refuses to hold both spellings
+		"/b/{-id}", "/d/{x}/{-y:\\d+}", "/d/{-x}/{y:\\d+}", "/h/{-n}", "/i/{y:\\d+}/t", "/i/{-y:\\d+}/t"}
 	methodSets = [][]string{{"GET"}, {"POST"}, {"GET", "POST"}, {"DELETE", "PUT"}, {"PATCH"}, {"CONNECT", "GET"}, nil, {"PUT"}, {"DELETE"}, {"GET", "DELETE", "PATCH"}, {"POST", "CONNECT"}}
-	domains    = []string{"a.com", "{sub}.b.com", "c.io", "d.net", "{n:\\d+}.e.org", "f.com"}
+	domains    = []string{"a.com", "{sub}.b.com", "c.io", "d.net", "{n:\\d+}.e.org", "f.com", "{-sub}.b.com", "{-n:\\d+}.e.org"}
 )
 
 func genRegs(t *rapid.T, min, max int) []Reg {
@@ -100,6 +103,18 @@ func witness(p string, v string) (string, map[string]string) {
 		return "/d/w" + v + "/" + v, map[string]string{"x": "w" + v, "y": v}
 	case "/h/{n}":
 		return "/h/" + v, map[string]string{"n": v}
+	case "/b/{-id}":
+		return "/b/v" + v, map[string]string{}
+	case "/d/{x}/{-y:\\d+}":
+		return "/d/w" + v + "/" + v, map[string]string{"x": "w" + v}
+	case "/d/{-x}/{y:\\d+}":
+		return "/d/w" + v + "/" + v, map[string]string{"y": v}
+	case "/h/{-n}":
+		return "/h/" + v, map[string]string{}
+	case "/i/{y:\\d+}/t":
+		return "/i/" + v + "/t", map[string]string{"y": v}
+	case "/i/{-y:\\d+}/t":
+		return "/i/" + v + "/t", map[string]string{}
 	}
 	return p, map[string]string{}
 }
@@ -215,7 +230,7 @@ func runInst(in Inst, tag string) *rig.Violation {
 			if _, panicked := rig.Try(func() { hs.Add(d) }); !panicked {
 				live[d] = true
 			}
-			for _, probe := range []struct{ dom, host string }{{"a.com", "a.com"}, {"{sub}.b.com", "x.b.com"}, {"c.io", "c.io:80"}, {"d.net", "D.NET"}, {"{n:\\d+}.e.org", "77.e.org"}, {"f.com", "f.com"}} {
+			for _, probe := range []struct{ dom, host string }{{"a.com", "a.com"}, {"{sub}.b.com", "x.b.com"}, {"c.io", "c.io:80"}, {"d.net", "D.NET"}, {"{n:\\d+}.e.org", "77.e.org"}, {"f.com", "f.com"}, {"{-sub}.b.com", "x.b.com"}, {"{-n:\\d+}.e.org", "77.e.org"}} {
 				if !live[probe.dom] {
 					continue
 				}
